@@ -974,8 +974,11 @@ where
         });
         if longitudinal.abs() > std::f64::EPSILON {
             (0..nvars).for_each(|var| {
-                qmc.make_interaction(vec![longitudinal, 0., 0., -longitudinal], vec![var])
-                    .unwrap()
+                qmc.make_interaction_and_offset(
+                    vec![-longitudinal, 0., 0., longitudinal],
+                    vec![var],
+                )
+                .unwrap()
             });
         }
         qmc.increase_cutoff_to(self.cutoff);
